@@ -16,6 +16,10 @@ const (
 // write-out - is still checked on those paths; asserted at the end of the harness
 var verifC04NoMeta, verifC04StaleName bool
 
+// payload shortening of the blocks built next (a block shorter than what an interrupted write-out left
+// behind in the column files exercises the committed-offset bookkeeping)
+var verifC04Shrink int
+
 type verifC04Blk struct {
 	ts      int64
 	data    [types.ColIdxCount][]byte
@@ -43,7 +47,10 @@ func verifC04BlockOn(day int64, k int) verifC04Blk {
 	b := verifC04Blk{ts: day + int64(300*(k+1)),
 		traffic: TrafficMetadata{NumV4Entries: uint64(k + 1), NumV6Entries: uint64(10 * (k + 1)), NumDrops: uint64(100 * (k + 1))},
 		counts:  types.Counters{BytesRcvd: uint64(1000 + k), BytesSent: uint64(2000 + k), PacketsRcvd: uint64(3 + k), PacketsSent: uint64(4 + k)}}
-	n := v.Param("PAYLOAD", 3)
+	n := v.Param("PAYLOAD", 3) - verifC04Shrink
+	if n < 1 {
+		n = 1
+	}
 	b.data[types.SIPColIdx] = v.Bytes(n)
 	b.data[types.BytesRcvdColIdx] = v.Bytes(n)
 	return b
@@ -185,12 +192,19 @@ func VerifC04_Crash() {
 	if n == nBefore+1 {
 		blocks = append(blocks, b)
 	}
-	// the next write-out to the same day
+	// the next write-out to the same day (a shorter block), and one more after it
+	verifC04Shrink = 2
 	c := verifC04Block(nBefore + 1)
+	verifC04Shrink = 0
 	v.Assert(verifC04WriteOut(c) == nil, "the next write-out to the same day succeeds")
 	blocks = append(blocks, c)
 	n2 := verifC04ReadBack(blocks, len(blocks))
 	v.Assert(n2 == len(blocks), "the next write-out is stored after everything committed before")
+	d := verifC04Block(nBefore + 2)
+	v.Assert(verifC04WriteOut(d) == nil, "a further write-out to the same day succeeds")
+	blocks = append(blocks, d)
+	n3 := verifC04ReadBack(blocks, len(blocks))
+	v.Assert(n3 == len(blocks), "a further write-out is stored after everything committed before")
 	v.Assert(!verifC04NoMeta, "a day directory left without metadata by an interrupted first write-out opens for reading")
 	v.Assert(!verifC04StaleName, "after an interruption between the metadata rename and the directory rename the summary in the directory name agrees with the day's blocks")
 }
